@@ -376,10 +376,50 @@ def run(rep, tier):
     # --- (c) each Operation::call invokes exactly its own backend method, once --------------------------
     check_calls(rep, prog, model, trait_ops)
 
+    # --- (d) the router sees the query string / path decoded exactly once -----------------------------------
+    decode_once(rep, prog)
+
+    # --- (e) path-style and virtual-hosted-style name the same bucket/key (imported from C12's harnesses) ----
+    from vlib import kspec
+    kspec.run_spec(rep, "C12", tier, budget_s=160, parallel=4,
+                   only=lambda s_: any(t in s_["harness"] for t in ("styles_agree_3_3", "vh_style_structure_3_4", "vh_style_structure_3_1", "path_style_structure_4")))
+
     rep.solver_time += ex.solver_time
     rep.transitions += ex.queries
     rep.out("hyper's request-line parsing; CreateSession/ListDirectoryBuckets (no S3 trait method); "
             "host-style equivalence is C12's obligation; POST-object form uploads are routed in prepare (C10)")
+
+
+def decode_once(rep, prog):
+    """rsx: extract_qs hands the RAW query of the URI to OrderedQs::parse (which decodes each name/value once) and
+    prepare decodes the path once; plus two witnesses on the real build with encoded '&' and '%' in values"""
+    t0 = time.time()
+    mh, ch = prof.orchestration_hooks()
+    ex = rsx.Executor(prog, call_hook=ch, method_hook=mh, macro_hook=prof.macro_hook)
+    fn = prog.find_fn("extract_qs", "ops")
+    paths = ex.explore(fn, lambda: [Term("uri")], "ops")
+    want = 'Ok(Some(payload(OrderedQs::parse(payload(query(uri),"Some")),"Ok")))'
+    oks = [vkey(p.ret) for p in paths if vkey(p.ret).startswith("Ok(Some")]
+    good = oks == [want]
+    from vlib import replay
+    scs = [{"config": {"auth": {"AK": "SK"}, "access": "allow"}, "request": {"method": "GET", "uri": "/bkt?prefix=logs%26uploads", "headers": []}},
+           {"config": {"auth": {"AK": "SK"}, "access": "allow"}, "request": {"method": "DELETE", "uri": "/bkt/k?versionId=v1%26tagging", "headers": []}},
+           {"config": {"auth": {"AK": "SK"}, "access": "allow"}, "request": {"method": "GET", "uri": "/bkt/a%2520b%2Fc?versionId=1%2525", "headers": []}}]
+    outs = replay.run_scenarios(scs)
+    rep.traces_validated += len(scs)
+    got = [replay.access_op(o) for o in outs]
+    inputs = [" ".join(e.get("input", "") for e in o.get("events", []) if e["ev"].startswith("s3.")) for o in outs]
+    wit_ok = got == ["ListObjects", "DeleteObject", "GetObject"] and 'prefix: "logs&uploads"' in inputs[0] and \
+        'key: "a%20b/c"' in inputs[2] and 'version_id: "1%25"' in inputs[2]
+    rep.encoded("crates/s3s/src/ops/mod.rs", "extract_qs")
+    if good and wit_ok:
+        rep.obligation("the query string reaches the router decoded exactly once (raw query -> OrderedQs::parse); witnesses with encoded '&', '%'",
+                       "rsx+replayer", "holds", time.time() - t0)
+    else:
+        cex = rep.save_cex("decode_once", {"extract_qs_returns": oks, "expected": want, "resolved_ops": got, "inputs": inputs})
+        res = rep.violation("decode-once:query", "the query string is not decoded exactly once before routing: extract_qs returns %s; "
+                            "witness requests resolve to %s" % (oks, got), cex, confirmed=not wit_ok)
+        rep.obligation("query decoded once", "rsx+replayer", res, time.time() - t0)
 
 
 def call_hooks():
